@@ -739,11 +739,18 @@ avx_rule_accw (OrcCompiler *p, void *user, OrcInstruction *insn)
 
   const int size = p->vars[insn->src_args[0]].size << p->loop_shift;
 
-  // More than one element and it's unsafe
-  if (size >= 2) {
-    orc_avx_emit_paddw (p, dest, src, dest);
+  // a step narrower than the register only defines the low lanes of src:
+  // keep the others out of the sum (a VEX.128 result has a zero upper half)
+  if (size < 32) {
+    const int tmp = orc_compiler_get_temp_reg (p);
+    if (size < 16) {
+      orc_avx_sse_emit_pslldq_imm (p, 16 - size, src, tmp);
+    } else {
+      orc_avx_sse_emit_movdqa (p, src, tmp);
+    }
+    orc_avx_emit_paddw (p, dest, tmp, dest);
   } else {
-    orc_avx_sse_emit_paddw (p, dest, src, dest);
+    orc_avx_emit_paddw (p, dest, src, dest);
   }
 }
 
@@ -753,17 +760,21 @@ avx_rule_accl (OrcCompiler *p, void *user, OrcInstruction *insn)
   const int src = p->vars[insn->src_args[0]].alloc;
   const int dest = p->vars[insn->dest_args[0]].alloc;
 
-  if (p->loop_shift == 0) {
-    orc_avx_sse_emit_pslldq_imm (p, 12, src, src);
-  }
-
   const int size = p->vars[insn->src_args[0]].size << p->loop_shift;
 
-  // More than one element and it's unsafe
-  if (size >= 4) {
-    orc_avx_emit_paddd (p, dest, src, dest);
+  // a step narrower than the register only defines the low lanes of src:
+  // keep the others out of the sum (a VEX.128 result has a zero upper half;
+  // src itself may still be needed)
+  if (size < 32) {
+    const int tmp = orc_compiler_get_temp_reg (p);
+    if (size < 16) {
+      orc_avx_sse_emit_pslldq_imm (p, 16 - size, src, tmp);
+    } else {
+      orc_avx_sse_emit_movdqa (p, src, tmp);
+    }
+    orc_avx_emit_paddd (p, dest, tmp, dest);
   } else {
-    orc_avx_sse_emit_paddd (p, dest, src, dest);
+    orc_avx_emit_paddd (p, dest, src, dest);
   }
 }
 
